@@ -13,10 +13,12 @@ RIDS = ["addShape", "picture", "notes", "setLink", "changeLink", "clearLink", "s
 
 def configs(thorough):
     if thorough:
-        return [("ids", ["addShape", "autoshape", "group", "freeform", "picture", "setTurbo", "addSlide", "reopen"], 4, [2, 4], None), ("ids3", IDS, 3, [2, 3, 4, 5, 6], None), ("rids", RIDS, 4, [5], None), ("rids3", RIDS, 3, [2], None), ("sim", c02.FULL, 12, [1, 2, 3, 4, 5], "num=600")]
+        return [("ids", ["addShape", "autoshape", "group", "freeform", "picture", "setTurbo", "addSlide", "reopen"], 4, [2, 4], None), ("ids3", IDS, 3, [2, 3, 4, 5, 6], None), ("rids", RIDS, 4, [5], None), ("rids3", RIDS, 3, [2], None),
+                ("notesgap", ["notes", "access", "save", "reopen", "addSlide"], 3, [13], None), ("sim", c02.FULL, 12, [1, 2, 3, 4, 5], "num=600")]
     return [("ids", ["addShape", "autoshape", "group", "freeform", "picture", "setTurbo", "addSlide", "reopen", "access"], 3, [2, 4], None),
             ("media", ["addShape", "picture", "movie", "reopen", "save"], 3, [6], None),
             ("rids", RIDS, 3, [5], None), ("turbo", ["setTurbo", "addShape", "textbox", "freeform"], 4, [5], None),
+            ("notesgap", ["notes", "access", "reopen"], 2, [13], None),
             ("sim", c02.FULL, 10, [1, 2, 3, 4, 5], "num=60")]
 
 
